@@ -397,7 +397,14 @@ func containsAddr(l []netip.Addr, a netip.Addr) bool {
 func (w *world) markLapsed(inc *incarnation) {
 	for _, key := range w.svcKeys() {
 		s := w.getSvc(key)
-		if a := statusAddrs(s); len(a) > 0 && inc.cfgInForce.OwnerOf(a) == nil {
+		a := statusAddrs(s)
+		if len(a) == 0 {
+			continue
+		}
+		own := inc.cfgInForce.OwnerOf(a)
+		// no pool owns the addresses any more, or the owning pool no longer admits the service
+		// (namespaces / selectors re-targeted) as the API server and as this incarnation see it
+		if own == nil || !own.Admits(s) || (inc.lastSeen[key] != nil && !own.Admits(inc.lastSeen[key])) {
 			inc.lapsed[key] = true
 		}
 	}
